@@ -48,7 +48,7 @@ class Check(common.Check):
     LEAN_TARGETS = ['Sc3Verif.C04.Props']
     LEAN_DIRS = ['Sc3Verif/C04']
     THEOREMS = ['Sc3Verif.C04.' + t for t in (
-        'level_indices_closed_form', 'layout_by_rate_then_decl', 'classify_spec', 'units_partition_slots',
+        'names_in_declaration_order', 'level_indices_closed_form', 'layout_by_rate_then_decl', 'classify_spec', 'units_partition_slots',
         'name_index_points_to_defaults', 'body_receives_slots', 'lags_carried', 'later_levels_keep_earlier',
         'wrap_levels_concatenate', 'variants_overlay', 'variant_block_spec', 'variant_block_length',
         'variants_wellformed', 'call_maps_args')]
@@ -377,6 +377,12 @@ class Check(common.Check):
                         return {'what': f"unit of {p['n']} has inputs {u['lags']}", 'signature': 'lags'}
                     if u['cls'] == 'LagControl' and u['n'] > 16:
                         return {'what': 'LagControl with more than 16 channels', 'signature': 'lags:clump'}
+        # 4b. prepended values reach the body unchanged
+        for li, lv in enumerate(levels):
+            want = [str(int(v * I.SCALE)) for v in (lv.get('prepend') or [])]
+            if io['prepended'][li] != want:
+                return {'what': f"level {li}: body received {io['prepended'][li]} for the prepended values {want}",
+                        'signature': 'prepend'}
         # 5. variants: the blocks of the valid prefix, each = defaults with exactly the named slots replaced
         sizes = {p['n']: len(defaults_of(p, specs)[0]) for _, p in ctl}
         want_blocks = []
